@@ -178,7 +178,7 @@ def definition_errors(nspec, mspec, dmspec, spin_channel, npts, seed, plan_type)
     grids, idx = _probe_grid_points(mol, dm, 1, npts, seed)
     pts = np.ascontiguousarray(grids.coords[idx])
     ref, _ = reference_features(nspec, mol, dm, pts)
-    fast = _fast_reference_path(mol, pts, dm, settings, plan_type)
+    fast = _fast_reference_path(mol, pts, dm, settings, plan_type, aux_lambd=1.6)
     assert fast.shape == ref.shape == (settings.nfeat, len(pts)), (fast.shape, ref.shape)
     out = []
     for k in range(ref.shape[0]):
@@ -266,8 +266,10 @@ def nldf_fast_vs_reference_path(case, ctx):
         rho_in = rho_full[:4]
     else:
         rho_in = rho_full
+    # the auxiliary ladder ratio is passed explicitly (1.6, the value the tolerances below were measured with): the
+    # package's default is a tuning parameter a maintainer may change without touching the property
     gen = PyscfNLDFGenerator.from_mol_and_settings(mol, grids.grids_indexer, 1, settings, plan_type=case["plan_type"],
-                                                   interpolator_type=case["interp"])
+                                                   interpolator_type=case["interp"], aux_lambd=1.6)
     gen.interpolator.set_coords(grids.coords)
     if case.get("warm"):
         # the features are a function of the density handed in, not of what the generator was used for before: half of
@@ -276,9 +278,9 @@ def nldf_fast_vs_reference_path(case, ctx):
         other_rho = np.ascontiguousarray(rho_in * np.array([0.37, -0.8, 1.3, 0.6, 0.45][: len(rho_in)])[:, None])
         gen.get_features(other_rho)
     fast = np.asarray(gen.get_features(np.ascontiguousarray(rho_in)))[:, idx]
-    ref = np.asarray(_nldf_desc_getter(mol, grids, dm, settings, inner_grids=grids, plan_type=case["plan_type"]))[:, idx]
+    ref = np.asarray(_nldf_desc_getter(mol, grids, dm, settings, inner_grids=grids, plan_type=case["plan_type"], aux_lambd=1.6))[:, idx]
     other = "spline" if case["plan_type"] == "gaussian" else "gaussian"
-    ref2 = np.asarray(_nldf_desc_getter(mol, grids, dm, settings, inner_grids=grids, plan_type=other))[:, idx]
+    ref2 = np.asarray(_nldf_desc_getter(mol, grids, dm, settings, inner_grids=grids, plan_type=other, aux_lambd=1.6))[:, idx]
     labs = spec_labels(nspec)
     th = nspec["theta"]
     tail_vanishing = th[1] == 0 and (nspec["level"] == "GGA" or th[2] == 0)
